@@ -96,11 +96,6 @@ def slabPut (s : List (Nat × Nat)) (id : Nat) : VecF → List (Nat × Nat)
   | .bad _ => aerase s id
   | .none => aerase s id
 
-/-- `embeddings.set(id, vec)` whose error is only logged (replay of an `EmbeddingSet` record) -/
-def slabSet (s : List (Nat × Nat)) (id : Nat) : VecF → List (Nat × Nat)
-  | .good t => aset s id t
-  | _ => s
-
 /-! ### operations, results, program counters -/
 
 inductive Op where
@@ -112,6 +107,11 @@ inductive Op where
   | putD (k : Key) (v : Val)        -- `put_durable`
   | delD (k : Key)                  -- `delete_durable`
   deriving DecidableEq, Repr
+
+/-- the key an operation is on (a scan has none) -/
+def Op.key? : Op → Option Key
+  | .put k _ | .get k | .delete k | .exists_ k | .putD k _ | .delD k => some k
+  | .scan _ => none
 
 inductive Res where
   | ok | notFound
@@ -224,7 +224,7 @@ def stepOp (s : Store) (op : Op) (pc : PC) : Store × Outcome :=
       if k.cls = .cache then routerPut s k v else (logPut s k v, .cont .putDAfterLog)
   | .start, .delD k =>
       if k.cls = .cache then routerDelete s k else (logDelete s k, .cont .delDAfterLog)
-  -- durable: apply after the log mutex is released
+  -- durable: the in-memory apply (the log mutex is still held, see `blocked`)
   | .putDAfterLog, .putD k v => routerPut s k v
   | .delDAfterLog, .delD k => routerDelete s k
   -- emb: put
@@ -279,8 +279,26 @@ structure Sys where
 def initSys (walOn : Bool) (progs : List ThreadProgram) : Sys :=
   { store := { walOn := walOn }, threads := progs.map (fun p => { ops := p }) }
 
-/-- let thread `t` take its next atomic step (no-op when `t` does not exist or has finished) -/
-def step (sys : Sys) (t : Nat) : Sys :=
+/-! #### the log mutex
+
+    `put_durable` / `delete_durable` of a non-cache key take `SlabRouter.wal` (a `Mutex`) before
+    they log and release it when the in-memory apply has returned (repo dfea2ecb; before that
+    commit it was released right after the log records were appended, see `stepOld`). -/
+
+def Op.takesLock : Op → Bool
+  | .putD k _ | .delD k => decide (k.cls ≠ .cache)
+  | _ => false
+
+/-- between its log step and the end of its durable operation: the thread holds the log mutex -/
+def Thread.inCS (th : Thread) : Bool :=
+  match th.ops with
+  | op :: _ => op.takesLock && decide (th.pc ≠ .start)
+  | [] => false
+
+/-- let thread `t` take its next atomic step, whoever holds the log mutex (no-op when `t` does not
+    exist or has finished).  This is the step machine of the code BEFORE dfea2ecb, where the mutex
+    covered the log step only (one atomic step, so exclusion of two log steps is automatic). -/
+def stepOld (sys : Sys) (t : Nat) : Sys :=
   match sys.threads[t]? with
   | none => sys
   | some th =>
@@ -298,13 +316,66 @@ def step (sys : Sys) (t : Nat) : Sys :=
             hist := sys.hist ++ [{ t := t, i := th.idx, op := op, res := r, inv := inv, ret := sys.clock }],
             clock := sys.clock + 1, trace := tr }
 
+/-- THE CURRENT CODE: as `stepOld`, but a thread about to enter a durable write of a non-cache key
+    while another thread holds the log mutex does not move (it blocks in `Mutex::lock`; nothing
+    is recorded and the clock does not advance) -/
+def step (sys : Sys) (t : Nat) : Sys :=
+  match sys.threads[t]? with
+  | none => sys
+  | some th =>
+    match th.ops with
+    | [] => sys
+    | op :: _ =>
+      if sys.store.walOn && op.takesLock && decide (th.pc = .start) && sys.threads.any Thread.inCS
+      then sys else stepOld sys t
+
 def runFrom (sys : Sys) (sched : List Nat) : Sys := sched.foldl step sys
 
 /-- interpret an interleaving: `sched` names the thread that takes each successive atomic step -/
 def runSched (walOn : Bool) (progs : List ThreadProgram) (sched : List Nat) : Sys :=
   runFrom (initSys walOn progs) sched
 
+/-- the same interleaving on the step machine of the code before dfea2ecb -/
+def runSchedOld (walOn : Bool) (progs : List ThreadProgram) (sched : List Nat) : Sys :=
+  sched.foldl stepOld (initSys walOn progs)
+
 def quiescent (sys : Sys) : Bool := sys.threads.all (fun th => th.ops.isEmpty)
+
+/-! #### "no two operations on the same key overlap in time", stated over the schedule -/
+
+/-- the key of the operation thread `th` is INSIDE of: it has taken the first atomic step of its
+    current operation and not yet the last one (only `emb:` keys and durable writes have
+    operations of more than one step) -/
+def Thread.midKey (th : Thread) : Option Key :=
+  if th.pc = .start then none else
+  match th.ops with
+  | op :: _ => op.key?
+  | [] => none
+
+/-- the next step of thread `t` does not INVOKE an operation on an `emb:` key while another thread
+    is inside an operation on the same key (steps that continue an operation, operations on
+    other keys and scans are never restricted) -/
+def startsExclusive (sys : Sys) (t : Nat) : Bool :=
+  match sys.threads[t]? with
+  | none => true
+  | some th =>
+    if th.pc ≠ .start then true else
+    match th.ops with
+    | [] => true
+    | op :: _ =>
+      match op.key? with
+      | none => true
+      | some k => decide (k.cls ≠ .emb) || sys.threads.all (fun th' => decide (th'.midKey ≠ some k))
+
+/-- in the run of `sched` from `sys` no operation on an `emb:` key is invoked while another
+    operation on that key is in progress, i.e. no two operations on one `emb:` key overlap in time
+    (an operation occupies the steps from its first to its last atomic step) -/
+def NoEmbOverlapFrom (sys : Sys) : List Nat → Bool
+  | [] => true
+  | t :: rest => startsExclusive sys t && NoEmbOverlapFrom (step sys t) rest
+
+def NoEmbOverlap (walOn : Bool) (progs : List ThreadProgram) (sched : List Nat) : Bool :=
+  NoEmbOverlapFrom (initSys walOn progs) sched
 
 /-! ### sequential execution of one operation (all its steps back to back) -/
 
@@ -337,7 +408,9 @@ def applyEntry (s : Store) : Entry → Store
           let ic := idxGetOrCreate s.vocab k
           { s with md := aset s.md k v, vocab := ic.2, slab := slabPut s.slab ic.1 vec }
   | .metaDel k => { s with md := aerase s.md k }
-  | .embSet id vec => { s with slab := slabSet s.slab id vec }
+  -- ignored by replay (repo 6b9ec7ce): the id is the one the key had in the session that logged
+  -- it; the `MetadataSet` record that always follows carries the vector
+  | .embSet _ _ => s
   | .embDel id => { s with slab := aerase s.slab id }
   | .entRemove k => { s with vocab := idxRemove s.vocab k }
 
@@ -429,42 +502,6 @@ def Op.nonDurable : Op → Bool
   | .putD .. | .delD .. => false
   | _ => true
 
-def Op.key? : Op → Option Key
-  | .put k _ | .get k | .delete k | .exists_ k | .putD k _ | .delD k => some k
-  | .scan _ => none
-
-end Neumann.KV
-
-namespace Neumann.KV
-
-/-! ### the proposed repair (proposed/C11-durable-apply-under-log-mutex.diff): the log mutex is held
-    from the log step to the end of the in-memory apply -/
-
-def Op.takesLock : Op → Bool
-  | .putD k _ | .delD k => decide (k.cls ≠ .cache)
-  | _ => false
-
-/-- between its log step and the end of its durable operation -/
-def Thread.inCS (th : Thread) : Bool :=
-  match th.ops with
-  | op :: _ => op.takesLock && decide (th.pc ≠ .start)
-  | [] => false
-
-/-- as `step`, but a thread about to enter a durable write while another thread holds the log
-    mutex does not move (it blocks) -/
-def stepLocked (sys : Sys) (t : Nat) : Sys :=
-  match sys.threads[t]? with
-  | none => sys
-  | some th =>
-    match th.ops with
-    | [] => sys
-    | op :: _ =>
-      if sys.store.walOn && op.takesLock && decide (th.pc = .start) && sys.threads.any Thread.inCS
-      then sys else step sys t
-
-def runLocked (walOn : Bool) (progs : List ThreadProgram) (sched : List Nat) : Sys :=
-  sched.foldl stepLocked (initSys walOn progs)
-
 end Neumann.KV
 
 /-! ### witness interleavings (proved in `Props.lean`, replayed on the real store by `corr_kv`) -/
@@ -485,7 +522,8 @@ def embMixtureSched : List Nat := [0, 1, 0, 2, 2, 1, 0, 1, 2]
 def durableOrderProgs : List ThreadProgram :=
   [[.putD kP1 ⟨1, .none⟩], [.putD kP1 ⟨2, .none⟩]]
 
-/-- A logs, B logs, B applies, A applies -/
+/-- A logs, B logs, B applies, A applies (executable on `stepOld` only: under the log mutex B does
+    not move until A has applied) -/
 def durableOrderSched : List Nat := [0, 1, 1, 0]
 
 end Neumann.KV
